@@ -54,9 +54,10 @@ def run_case(idx, rng, tier, rep):
     e_client = rng.random() < 0.55
     h = scen.Hostile(e_client, keep_log=True, handshake=False)
     t = h.t
-    h.mdec.max_allowed_table_size = 2 ** 20
+    h.mdec.max_allowed_table_size = 4096        # follows what the scripted peer announces: no block may signal a larger table
     st = {'mfs': 16384, 'alive': True, 'peer_hi': 0}
     calls = []
+    owed = {}          # window scope -> octets acknowledged by E and not yet credited by an automatic WINDOW_UPDATE
     tag = [0]
 
     def fail(key, what):
@@ -206,8 +207,15 @@ def run_case(idx, rng, tier, rep):
             if res.ok:
                 st['mfs'] = v
         elif op == 'peer_table':
-            v = rng.choice([0, 100, 4096, 65536])
-            recv(wire.build_settings([(wire.S_HEADER_TABLE_SIZE, v)]))
+            v = rng.choice([0, 100, 1024, 4096, 8192, 65536])
+            if recv(wire.build_settings([(wire.S_HEADER_TABLE_SIZE, v)])).ok:
+                h.mdec.max_allowed_table_size = v
+                rep.count('peer_table_size_changes')
+                if rng.random() < 0.4:
+                    # a second change right behind the first, before E has sent another block
+                    v = rng.choice([0, 100, 1024, 4096, 8192])
+                    if recv(wire.build_settings([(wire.S_HEADER_TABLE_SIZE, v)])).ok:
+                        h.mdec.max_allowed_table_size = v
         elif op == 'peer_open':
             if not e_client and len(live) < 8:
                 open_stream()
@@ -454,18 +462,34 @@ def run_case(idx, rng, tier, rep):
                 inbound_data[sid] = 0
                 if not r0.ok:
                     continue
-            n = rng.choice([1, 100, 8000, 16384])
+            n = rng.choice([1, 100, 8000, 16384, 16384])
             if t.c.remote_flow_control_window(sid) < n:
                 continue
             r0 = recv(wire.build_data(sid, b'p' * n))
             if not r0.ok:
                 continue
+            # (several frames before one acknowledgement, now and then: enough to make a WINDOW_UPDATE fall due)
+            while rng.random() < 0.5 and t.c.remote_flow_control_window(sid) >= 16384:
+                if not recv(wire.build_data(sid, b'p' * 16384)).ok:
+                    break
+                n += 16384
             res = t.call('acknowledge_received_data', n, sid)
             calls.append(('ack', n, sid))
             if not check_frames(res, 'acknowledge_received_data') or res.exc is not None:
                 continue
             rep.count('calls_spec_checked')
             wu = [f for f in res.frames if f.type == wire.WINDOW_UPDATE]
+            # an acknowledgement hands back what was acknowledged, never more: per scope the increments it emits stay within
+            # the octets acknowledged so far and not yet credited
+            for scope in (0, sid):
+                owed[scope] = owed.get(scope, 0) + n
+            for f in wu:
+                if f.increment > owed.get(f.stream_id, 0):
+                    fail('C02:acknowledge-credits-more-than-acknowledged', 'acknowledge_received_data(%d, %d) emitted WINDOW_UPDATE(%d, +%d) '
+                         'with only %d acknowledged octets outstanding for that window' % (n, sid, f.stream_id, f.increment, owed.get(f.stream_id, 0)))
+                    break
+                owed[f.stream_id] -= f.increment
+                rep.count('automatic_window_updates_within_acknowledged')
             ids = [f.stream_id for f in res.frames]
             if len(wu) != len(res.frames) or len(ids) > 2 or ids not in ([], [0], [sid], [0, sid]):
                 fail('C02:acknowledge-emission-wrong', 'acknowledge_received_data emitted %s' % [f.brief() for f in res.frames])
